@@ -320,17 +320,28 @@ def concrete(cfg, env):
     return {"ok": True}
 
 
+def _stable_closed(k, t, mu, sg):
+    """Float reference for the closed form, evaluated in whichever of the two equivalent forms is stable."""
+    from scipy.special import erf
+    from scipy.special import erfcx
+
+    th = (t - mu - k * sg * sg) / (sg * np.sqrt(2))
+    if th < 0:
+        return 0.5 * np.exp(-((t - mu) ** 2) / (2 * sg * sg)) * erfcx(-th)
+    return 0.5 * np.exp(k * k * sg * sg / 2 - k * (t - mu)) * (1 + erf(th))
+
+
 def _float_closed(cfg, rng):
     import glotaran.builtin.megacomplexes.decay.util as du
     from glotaran.builtin.megacomplexes.decay.irf import IrfMultiGaussian
-    from scipy.special import erf
 
     nc, nw, nr, nt = cfg["nc"], cfg["nw"], cfg["nr"], cfg["nt"]
     ng = max(nc, nw)
     mus = rng.uniform(-0.5, 0.5, nc)
     sigs = rng.uniform(0.05, 0.6, nw)
     scs = rng.uniform(0.5, 2.0, ng) if cfg["scales"] else None
-    ks = rng.uniform(0.2, 5.0, nr)
+    # every other draw uses large rate x width products (up to ~30), where the two numerical branches differ most
+    ks = rng.uniform(0.2, 5.0, nr) if rng.random() < 0.5 else rng.uniform(10.0, 60.0, nr)
     ts = rng.uniform(-2.0, 4.0, nt)
     irf = IrfMultiGaussian(label="irf", center=[_param(f"mu{i}", float(m)) for i, m in enumerate(mus)],
                            width=[_param(f"sig{i}", float(s)) for i, s in enumerate(sigs)],
@@ -344,11 +355,11 @@ def _float_closed(cfg, rng):
             want = 0.0
             for g in range(ng):
                 mu, sg = mus[g if nc > 1 else 0], sigs[g if nw > 1 else 0]
-                term = 0.5 * np.exp(k * k * sg * sg / 2 - k * (t - mu)) * (1 + erf((t - mu - k * sg * sg) / (sg * np.sqrt(2))))
+                term = _stable_closed(k, t, mu, sg)
                 want += (scs[g] if scs is not None else 1.0) * term
             if cfg["normalize"]:
                 want /= (scs.sum() if scs is not None else ng)
-            if abs(matrix[ti, ri] - want) > 1e-7 * max(abs(want), 1e-6):
+            if abs(matrix[ti, ri] - want) > 1e-6 * max(abs(want), 1e-12) and abs(want) > 1e-250:
                 return True, (f"{cfg['name']}: k={k}, t={t}, centres={mus.tolist()}, widths={sigs.tolist()}, scales="
                               f"{None if scs is None else scs.tolist()}: matrix entry {matrix[ti, ri]}, closed form {want}")
     return False, "ok"
